@@ -2,7 +2,7 @@ import sys; sys.path.insert(0,'/verif')
 from vlib import units, extract, symex, prove
 us = units.load_sidecars(); reg = units.registry(us)
 u = reg[sys.argv[1]]
-node, text, info = extract.find(u['file'], u['qualname'])
+node, text, info = (extract.find_slice(u['file'], u['qualname'], u['slice'][0], u['slice'][1], u['params']) if u.get('slice') else extract.find(u['file'], u['qualname']))
 uu = dict(u); uu['node']=node
 eng = symex.Engine(uu, reg)
 obls = eng.run()
